@@ -321,6 +321,8 @@ def _viol_gen(item, vals, part, form, what, cause, seed):
     sig = {"part": part, "form": form, "cause": cause}
     if item.get("mode", "req") != "req":
         sig["mode"] = item["mode"]
+        if vals[0] is None:
+            sig["input"] = "explicit-None"
     return {"sig": sig, "input": inp, "what": what, "_type": item["type"] + ("+" + item["type2"] if item.get("type2") else "")}
 
 
@@ -412,11 +414,11 @@ def _skip_none_default(S, key, v):
 
 
 def _pair_corpus(c, k):
-    """pair deviations use the first k corpus values of a field plus explicit None and omission (k=None: everything)"""
+    """pair deviations use the first |k| corpus values of a field plus omission and (k>0) explicit None; k=None: everything"""
     if k is None:
         return list(range(len(c)))
-    idx = list(range(min(k, len(c))))
-    for extra in (None, G.OMIT):
+    idx = list(range(min(abs(k), len(c))))
+    for extra in (None, G.OMIT) if k > 0 else (G.OMIT,):
         for n, v in enumerate(c):
             if (v is None and extra is None) or (extra is G.OMIT and G.is_omit(v)):
                 if n not in idx:
@@ -424,7 +426,7 @@ def _pair_corpus(c, k):
     return idx
 
 
-def run_installed(item):
+def run_installed(item, case_fn=None):
     """item = (schema name, i, j|None, k, bad_i, bad_j): all deviations of field i (and j) from the minimal instance.
 
     Pairs: value indices in bad_i / bad_j failed the oracle on their own (bound 1) and are not combined again."""
@@ -454,7 +456,7 @@ def run_installed(item):
     classes_reported = set()
     for idx, dev in devs:
         res["evals"] += 1
-        (status, kind), fails, nan, ser = _inst_case(name, dev)
+        (status, kind), fails, nan, ser = (case_fn or _inst_case)(name, dev)
         if status == "rejected":
             res["rejected"] += 1
             res["rej_kinds"][kind] = res["rej_kinds"].get(kind, 0) + 1
@@ -539,10 +541,10 @@ def gen_items(tier):
     return items, two, len(d2), len(d3)
 
 
-PAIR_K = {"quick": 2, "thorough": 8}
+PAIR_K = {"quick": -1, "thorough": 8}  # negative: without explicit None
 
 
-def run_installed_family(pool, tier, names, seed):
+def run_installed_family(pool, tier, names, seed, fname="run_installed"):
     """bound 0 and 1 with the full corpora first; bound 2 afterwards, not re-combining values that fail on their own"""
     probes = pool.map("probe_installed", names, chunk=1, item_deadline=300)
     info = {}
@@ -552,7 +554,7 @@ def run_installed_family(pool, tier, names, seed):
         if ok:
             singles.append((name, None, None, None, [], []))
             singles += [(name, i, None, None, [], []) for i in range(nf)]
-    res1 = pool.map("run_installed", singles, chunk=2, item_deadline=600)
+    res1 = pool.map(fname, singles, chunk=2, item_deadline=600)
     bad = {}
     for it, r in zip(singles, res1):
         if r != parallel.HANG and it[1] is not None:
@@ -563,7 +565,7 @@ def run_installed_family(pool, tier, names, seed):
         if info[name]["minimal_ok"]:
             nf = info[name]["fields"]
             pairs += [(name, i, j, k, bad.get((name, i), []), bad.get((name, j), [])) for i in range(nf) for j in range(i + 1, nf)]
-    res2 = pool.map("run_installed", pairs, chunk=4 if tier == "quick" else 1, item_deadline=900)
+    res2 = pool.map(fname, pairs, chunk=4 if tier == "quick" else 1, item_deadline=900)
     return singles + pairs, list(res1) + list(res2), info
 
 
@@ -589,7 +591,7 @@ def _finalise_sigs(viols):
         t = v.pop("_type", None)
         if t is not None:
             s = dict(v["sig"])
-            if s["cause"] == "union-alternative-shift":
+            if s["cause"] == "union-alternative-shift" or s.get("input") == "explicit-None":
                 pass  # one class per (part, form): the cause is the class
             elif t in G.ATOMS:
                 s["type"] = t
@@ -671,7 +673,7 @@ def run(tier, seed):
         _merge(total, part)
     viols = _finalise_sigs(viols)
     # order: atoms / short inputs first so that the first of each class is the minimal one
-    viols.sort(key=lambda v: len(json.dumps(v["input"], default=str)))
+    viols.sort(key=lambda v: (len(str(v["input"].get("type", ""))), v["input"].get("consts", "none") != "none", len(json.dumps(v["input"], default=str))))
     pick = lambda xs, k: [xs[i] for i in range(0, len(xs), max(1, len(xs) // k))][:k]  # noqa: E731
     cov = {
         "evaluations": total["evals"],
@@ -694,7 +696,7 @@ def run(tier, seed):
         "families": {"generated": gen_total, "two_field": two_total, "installed": inst_total},
         "installed": inst_info,
         "installed_deviation_bound": 2,
-        "installed_pair_corpora": f"bound 1: full corpora; bound 2: first {PAIR_K[tier]} corpus values + None + omission per field",
+        "installed_pair_corpora": f"bound 1: full corpora; bound 2: first {abs(PAIR_K[tier])} corpus value(s) + omission{' + None' if PAIR_K[tier] > 0 else ''} per field",
         "installed_pairs_subsumed_by_failing_single": subsumed,
         "wall_s_generated": round(t_gen, 1),
         "hangs": hangs,
@@ -709,7 +711,7 @@ def run(tier, seed):
             + ". Each class x the complete boundary corpus of its type (schema_grammar.atom_corpus; lists/sets: empty, every singleton, "
             "pair, duplicate; explicit None; omission); Optional[atom] parents with a @make_mandatory child. Installed: the 14 schema plugins, "
             "minimal instance + every deviation of 1 field with the full corpus of the declared field type (plus one undeclared extra key) + "
-            f"every deviation of 2 fields over the first {PAIR_K[tier]} corpus values + None + omission of each field (a value that already fails "
+            f"every deviation of 2 fields over the first {abs(PAIR_K[tier])} corpus value(s) + omission{' + None' if PAIR_K[tier] > 0 else ''} of each field (a value that already fails "
             "alone is not combined again). A case is an (class, input) pair; it is "
             "non-trivial and distinct when the input is accepted and its JSON bytes (with >=1 non-constant key) were not seen before for that class. "
             "NaN-holding instances (NaN != NaN) are only checked for parsability. VERIF_SEED renames field names/letters/unicode/host only."
